@@ -30,6 +30,12 @@ DWARF_QUERIES = [
     "(|D N| D entry (offset >= N) (?AT_low_pc, ?AT_location) [address, @AT_location, @AT_frame_base] length)",
     "(|D N| D unit (offset >= N) [root address, entry @AT_decl_file] length)",
     "(|D N| D entry (offset == N) [attribute (address, value)] length)",
+    # one view enumerated (wholly, or abandoned after the first result), then the other view asked: what one execution puts
+    # into the Dwarf's tables must serve the other
+    "(|D N| [D unit (offset >= N)] (|X| D raw unit root ?root offset))", "(|D N| [D entry (offset == N)] (|X| D raw entry ?root offset))",
+    "(|D N| [D raw unit (offset >= N) root] (|X| D entry ?root offset))", "(|D N| D entry ?(offset == N) (|X| D raw unit root !root offset))",
+    "(|D N| ?(D entry) D raw unit root ?root offset)", "(|D N| ?(D raw entry (offset >= N)) D unit root ?root offset)",
+    "(|D N| [D raw entry (offset >= N) parent] (|X| D entry (offset == N) parent* offset))",
 ]
 
 
@@ -45,7 +51,8 @@ def multi_input(ctx, h):
                "entry [offset, name, [@AT_type offset], [parent offset], [root offset]]", "unit [offset, [entry offset]]",
                "entry attribute [label, form, [?(form == (DW_FORM_data1, DW_FORM_string, DW_FORM_strp, DW_FORM_ref4, DW_FORM_udata)) value]]",
                "[symbol [name, label, binding, visibility]]", "[entry ?root] length", "[abbrev entry] length",
-               "[entry address] length", "entry [offset, [address], [@AT_high_pc]]", "unit [offset, [root address]]"]
+               "[entry address] length", "entry [offset, [address], [@AT_high_pc]]", "unit [offset, [root address]]",
+               "entry [offset, [@AT_decl_file], [@AT_call_file]]", "[entry (@AT_decl_file, @AT_name)]"]
     n = 8 if ctx.tier == "quick" else 60
     ok = tot = 0
     try:
@@ -54,18 +61,33 @@ def multi_input(ctx, h):
             desc, path = fs.make(rng, max_units=4, min_units=1, cu_imports=0.3 if k % 2 else 0.0, rich_ops=0.3, extras=0.4,
                                  versions=((2, 3, 4, 5) if k % 3 else (5,)))
             files.append(path)
+        # compiler-made samples (line tables: decl_file / call_file), first units at the same offset in every file
+        for sname in ("nullptr.o", "twocus", "enum.o", "typedef.o", "inline.o"):
+            sp_ = os.path.join(common.REPO, "tests", sname)
+            if os.path.exists(sp_):
+                files.append(sp_)
+        n = len(files)
         for k in range(n // 2):
             o = elfsym.gen_symobj(rng, elfsym.TARGETS[rng.randrange(len(elfsym.TARGETS))])
             path = os.path.join(fs.dir, "sym%d.o" % k)
             open(path, "wb").write(o.bytes())
             files.append(path)
         alone = {}
-        for rep in range(20 if ctx.tier == "quick" else 300):
-            q = rng.choice(queries)
-            pool = range(len(files)) if "symbol" in q else range(n)          # the symbol-only objects carry no DWARF
-            ks = [rng.choice(pool) for _ in range(rng.randint(2, 3))]
-            if rng.random() < 0.3:
-                ks.append(ks[0])                      # the first file again, after another one
+        samples_idx = [i for i, f in enumerate(files) if f.startswith(os.path.join(common.REPO, "tests"))]
+        fixed = []
+        if len(samples_idx) >= 3:
+            a_, b_, c_ = samples_idx[:3]
+            fixed = [([a_, b_, c_, a_], "entry [offset, [@AT_decl_file], [@AT_call_file]]"), ([c_, a_, c_], "[entry (@AT_decl_file, @AT_name)]"),
+                     ([b_, a_], "entry [offset, name, [@AT_type offset], [parent offset], [root offset]]")]
+        for rep in range(-len(fixed), 20 if ctx.tier == "quick" else 300):
+            if rep < 0:
+                ks, q = fixed[rep + len(fixed)]
+            else:
+                q = rng.choice(queries)
+                pool = range(len(files)) if "symbol" in q else range(n)          # the symbol-only objects carry no DWARF
+                ks = [rng.choice(pool) for _ in range(rng.randint(2, 3))]
+                if rng.random() < 0.3:
+                    ks.append(ks[0])                      # the first file again, after another one
             for k in set(ks):
                 if (k, q) not in alone:
                     r, c = h.run_impl_robust(["Q - %s %s" % (zwcorr.hx(q), zwcorr.hx(files[k]))])
@@ -149,16 +171,23 @@ def dwarf_histories(ctx, h):
     lines, meta = [], []
     try:
         files = []
+        files_with_partial = set()
         for k in range(n):
             desc, path = fs.make(rng, max_units=5, min_units=2, cu_imports=0.3 if k % 2 else 0.0)
             offs = [[x["offset"] for x in walk(u["root"])] for u in desc["units"]]
             files.append((path, offs))
+            if any(u["unit_type"] == "partial" for u in desc["units"]) and len(files_with_partial) < (3 if ctx.tier == "quick" else 40):
+                files_with_partial.add(path)
         for s in ("twocus", "dwz-partial", "a1.out"):
             p = os.path.join(common.REPO, "tests", s)
             if os.path.exists(p):
                 files.append((p, None))
+        mixes = [q for q in DWARF_QUERIES if "(|X|" in q or q.startswith("(|D N| ?(")]
         for path, offs in files:
-            for rep in range(3 if ctx.tier == "quick" else 6):
+            plan = [None] * (3 if ctx.tier == "quick" else 6)
+            if offs is None or path in files_with_partial:
+                plan += mixes                     # dwz samples and forests with partial units: every view-mixing query
+            for forced in plan:
                 if offs:
                     # later units first, then earlier ones
                     picks = [rng.choice(offs[-1]), rng.choice(offs[rng.randrange(len(offs))]), rng.choice(offs[0])]
@@ -168,7 +197,7 @@ def dwarf_histories(ctx, h):
                 else:
                     picks = [rng.choice([0x60, 0x5e, 0x80, 0xb3, 0x14]), rng.choice([0, 0xb, 0x2d]), rng.choice([0xb, 0, 0x34])]
                 inputs = "(|D| (%s))" % ", ".join("D %d" % o for o in picks)
-                q = rng.choice(DWARF_QUERIES)
+                q = forced or rng.choice(DWARF_QUERIES)
                 seed = rng.randrange(1 << 30)
                 lines.append("H %d %s %s - %s" % (seed, zwcorr.hx(q), zwcorr.hx(inputs), zwcorr.hx(path)))
                 meta.append((seed, q, inputs, path))
